@@ -1140,6 +1140,7 @@ func (app *App) ErrorHandler(ctx Ctx, err error) error {
 	var (
 		mountedErrHandler  ErrorHandler
 		mountedPrefixParts int
+		mountedPrefixLen   int
 	)
 
 	path := ctx.Path()
@@ -1149,15 +1150,19 @@ func (app *App) ErrorHandler(ctx Ctx, err error) error {
 			continue
 		}
 		// the mount prefix has to end on a segment boundary of the path
+		rawLen := len(prefix)
 		prefix = utils.TrimRight(prefix, '/')
 		if !strings.HasPrefix(path, prefix) || (len(path) > len(prefix) && path[len(prefix)] != '/') {
 			continue
 		}
 		// all candidates are prefixes of the same path, the longest one is the
-		// innermost sub-app; the choice does not depend on the map order
-		if parts := len(prefix) + 1; parts > mountedPrefixParts {
+		// innermost sub-app; the choice does not depend on the map order. A sub-app
+		// mounted at "/" inside another one differs from it only by the trailing slash
+		// of its key and is the inner one of the two
+		if parts := len(prefix) + 1; parts > mountedPrefixParts || (parts == mountedPrefixParts && rawLen > mountedPrefixLen) {
 			mountedErrHandler = subApp.config.ErrorHandler
 			mountedPrefixParts = parts
+			mountedPrefixLen = rawLen
 		}
 	}
 
